@@ -1,15 +1,78 @@
-"""C07 - family A clauses + the sensor cutoff is the last operation on a sensor value (R-CLAMP)."""
+"""C07 - family A clauses + the sensor cutoff is the last operation on a sensor value (R-CLAMP) + object-type -> frame
+field family discipline (R-FAMILY.2)."""
 
+import ast
+
+from ..report import Finding
 from ..rules import r_clamp
 from ..tables import clamp_tables
 from . import family_a
+
+# mjtObj member -> the Data frame fields that ARE that object's frame. BODY is the inertial frame (xipos/ximat), XBODY the
+# body frame (xpos/xmat): the two coincide whenever body_ipos = 0 and body_iquat = identity (every sphere-only fixture).
+OBJ_FRAME_FIELDS = {
+  "BODY": {"xipos", "ximat"},
+  "XBODY": {"xpos", "xmat"},
+  "GEOM": {"geom_xpos", "geom_xmat"},
+  "SITE": {"site_xpos", "site_xmat"},
+  "CAMERA": {"cam_xpos", "cam_xmat"},
+}
+_ALL_FRAME = set().union(*OBJ_FRAME_FIELDS.values())
+
+
+def _members(test):
+  out = set()
+  for c in ast.walk(test):
+    if isinstance(c, ast.Compare) and len(c.ops) == 1 and isinstance(c.ops[0], ast.Eq):
+      for side in (c.left, c.comparators[0]):
+        if isinstance(side, ast.Attribute) and isinstance(side.value, ast.Name) and side.value.id == "ObjType" and side.attr in OBJ_FRAME_FIELDS:
+          out.add(side.attr)
+  return out
+
+
+def check_objtype_frames(db, res) -> int:
+  """R-FAMILY.2: inside a branch taken for a set S of object types (`objtype == ObjType.A or objtype == ObjType.B`),
+  every frame array parameter read (`<field>_in`) belongs to the frame family of *every* member of S. A branch that
+  merges BODY and XBODY must therefore read neither xipos/ximat nor xpos/xmat (they differ between the two)."""
+  n = 0
+  mod = db.sm.module("sensor")
+  for fn in ast.walk(mod.tree):
+    if not isinstance(fn, ast.FunctionDef):
+      continue
+    for node in ast.walk(fn):
+      if not isinstance(node, ast.If):
+        continue
+      S = _members(node.test)
+      if not S or any(isinstance(x, (ast.And, ast.Not)) for x in ast.walk(node.test)):
+        continue
+      used = {}
+      for st in node.body:
+        for x in ast.walk(st):
+          if isinstance(x, ast.Name) and x.id.endswith("_in") and x.id[:-3] in _ALL_FRAME:
+            used.setdefault(x.id[:-3], x)
+      n += 1
+      bad = sorted(f for f in used if not all(f in OBJ_FRAME_FIELDS[m] for m in S))
+      res.ob(
+        not bad,
+        f"sensor.{fn.name}|{'+'.join(sorted(S))}|{node.lineno - fn.lineno}",
+        Finding(
+          "R-FAMILY.2",
+          f"sensor.{fn.name}|ObjType.{'+'.join(sorted(S))}|reads-{'+'.join(bad)}",
+          f"the branch of sensor.{fn.name} taken for ObjType.{' / '.join(sorted(S))} reads `{', '.join(b + '_in' for b in bad)}`, which is not the frame of {'every one of those object types' if len(S) > 1 else 'that object type'} (BODY = inertial frame xipos/ximat, XBODY = body frame xpos/xmat, GEOM/SITE/CAMERA = their own x-frames): results differ from MuJoCo whenever the two frames differ",
+          f"{mod.path}:{used[bad[0]].lineno}" if bad else mod.path,
+        ),
+        sample={"function": fn.name, "object_types": sorted(S), "frame_fields_read": sorted(used)} if n % 10 == 1 else None,
+      )
+  return n
 
 
 def _extra(db, res, tier, scope):
   n = r_clamp.check_clamp_last(res, scope, clamp_tables.CLAMP_LAST, "C07")
   res.floor("cutoff-last obligations", n, 30)
+  nf = check_objtype_frames(db, res)
+  res.floor("object-type frame branches", nf, 45)
 
 
 def run(db, res, tier):
   family_a.run_family(db, res, tier, "C07", extra=_extra)
-  res.rule_text += "; R-CLAMP: every sensordata store that applies sensor_cutoff stores the clamp / min result itself"
+  res.rule_text += "; R-CLAMP: every sensordata store that applies sensor_cutoff stores the clamp / min result itself; R-FAMILY.2: a sensor branch taken for a set of object types reads only frame arrays that are the frame of every type in the set (BODY: xipos/ximat, XBODY: xpos/xmat, GEOM/SITE/CAMERA: their own)"
